@@ -539,7 +539,7 @@ Lemma step_ClassRes s o :
   end.
 Proof.
   intros HI Hwf Hlim. destruct (step_spec P U T HU HP s o HI Hwf Hlim) as [_ Hr].
-  destruct o as [p now msg| | | | |]; cbn [StepRel] in Hr; try done.
+  destruct o as [p now msg| | | | | |]; cbn [StepRel] in Hr; try done.
   destruct (i_chain _ _ _ _ HI) as [tl Htl]. destruct Hwf as (HT & HUm & _).
   by eapply (Trans_classify P U T HU HP now).
 Qed.
